@@ -24,7 +24,12 @@ use tokio::fs;
 use tokio::net::TcpStream;
 #[cfg(rdest_verif)]
 use crate::verif::net::TcpStream;
+#[cfg(not(rdest_verif))]
 use tokio::sync::{broadcast, mpsc, oneshot};
+#[cfg(rdest_verif)]
+use crate::verif::chan::oneshot;
+#[cfg(rdest_verif)]
+use tokio::sync::{broadcast, mpsc};
 use tokio::time;
 use tokio::time::{Duration, Instant, Interval};
 
